@@ -481,7 +481,7 @@ def rule_r9(facts, col):
     to its 'enough buffered' outcome, no non-false result is reachable (a verdict that ignores `need` - e.g. tests emptiness
     only - never tells a reader holding 0 < amount < need that its request cannot be satisfied, or tells it too early)"""
     for body in verdict_functions(facts):
-        if body.argc < 2 or body.self_adt not in READ_ENDS or body.name not in ("wait", "wait_for_read"):
+        if body.argc < 2 or body.self_adt not in (READ_ENDS + ("stream::WriteStream",)) or body.name not in ("wait", "wait_for_read", "wait_for_write"):
             continue
         forced = {}
         for bb in sorted(body.reachable(0)):
@@ -501,7 +501,7 @@ def rule_r9(facts, col):
         # delegation (`fn wait(&self, need) { self.wait_for_read(need) }`) is judged in the callee
         rets = [peel(e) for _, _, e in assigns_to_return(body)]
         if rets and all(r.k == "call" and any(peel(x, through_try=False).k == "param" and peel(x, through_try=False).idx == 2 for x in (r.args or []))
-                        and (r.q or "").split("::")[-1] in ("wait", "wait_for_read") for r in rets):
+                        and (r.q or "").split("::")[-1] in ("wait", "wait_for_read", "wait_for_write") for r in rets):
             col.ok("C04.R9", key, body.where(), "delegates to %s with the same need" % rets[0].q)
             continue
         bad_ret = []
